@@ -4,7 +4,6 @@ use lambda_calculus::data::num::convert::Encoding;
 use lambda_calculus::parser::ParseError;
 #[cfg(feature = "hidden_api")]
 use lambda_calculus::parser::{self, CToken, Token};
-use lambda_calculus::term::LAMBDA;
 use lambda_calculus::*;
 
 pub fn char_wire(c: char) -> String {
@@ -274,10 +273,9 @@ pub fn exec2<'a, I: Iterator<Item = &'a str>>(op: &str, it: &mut I) -> String {
         }
         "show" => {
             let which = match it.next() { Some(w) => w.to_string(), None => bad!() };
-            let lam = num!();
-            if lam as u32 != LAMBDA as u32 {
-                return "wrong-build".into();
-            }
+            // the glyph on the line is the one the harness EXPECTS for this build (from its own cargo feature); the crate
+            // prints with whatever it was compiled with — the two are compared through the printed string
+            let _lam = num!();
             let t = term!();
             match which.as_str() {
                 "c" => show_cps(&t.to_string()),
